@@ -99,4 +99,11 @@ def run(rep, facts, tier):
     if "R" in facts:
         from . import gadgets
         gadgets.check_gadget_elligator(rep, facts["R"], "C07")
+    # the value sqrt_ratio_zeta returns for a NON-square ratio is consumed by this map only (the codec reads just the flag), so the routine's
+    # full four-case contract is a necessary condition of the map being the specified one: adopt C09's instances on that routine.
+    from . import c09
+    from .common import import_rules
+    n9 = import_rules(rep, c09, {k: v for k, v in facts.items() if k != "R"}, tier, "ISQRT")
+    rep.rules += ["ISQRT (C09's rule instances on sqrt_ratio_zeta, whose non-square output only this map consumes)"]
+    rep.floor("isqrt_contract_obligations", n9, 100)
     rep.floor("obligations", len(rep.obligations), 16)
